@@ -308,6 +308,21 @@ func buildJavaTree(c *run.Ctx, o *run.Outcome, dir string) (root string, ok bool
 		os.MkdirAll(filepath.Dir(path), 0o755)
 		ioutil.WriteFile(path, []byte(controllerText(r, i)), 0o644)
 	}
+	// service classes with different lifecycles (pairs of methods sharing a leading verb): the evaluation summary
+	// reports them per service
+	verbs := []string{"sync", "load", "charge", "ship", "audit", "refund", "merge", "publish"}
+	for i := 0; i < r.Range(2, 5); i++ {
+		var sb strings.Builder
+		sb.WriteString(fmt.Sprintf("package com.acme.svc;\n\npublic class Billing%dService {\n", i))
+		for k := r.Range(1, 3); k > 0; k-- {
+			v := verbs[(i*3+k)%len(verbs)]
+			sb.WriteString(fmt.Sprintf("    public void %sOrder%d() { }\n    public void %sInvoice%d() { }\n", v, i, v, i))
+		}
+		sb.WriteString("    public String describe() { return \"\"; }\n}\n")
+		path := filepath.Join(dir, "svc", fmt.Sprintf("Billing%dService.java", i))
+		os.MkdirAll(filepath.Dir(path), 0o755)
+		ioutil.WriteFile(path, []byte(sb.String()), 0o644)
+	}
 	tt := testsmellgen.Generate(r.Fork())
 	for _, f := range tt.Files {
 		path := filepath.Join(dir, "tests", filepath.FromSlash(f.RelPath))
@@ -770,6 +785,10 @@ func topFileCanon(path string) string {
 
 func goCase(c *run.Ctx, o *run.Outcome) {
 	f := gopygen.GenGo(c.Rng.Fork(), "sample.go", 0)
+	// exported interface + unexported struct whose names differ only in case (Client / client): distinct sort keys
+	for i := 0; i < c.Rng.Range(1, 4); i++ {
+		f.Text += fmt.Sprintf("\ntype Remote%d interface {\n\tDo%d() error\n}\n\ntype remote%d struct {\n\tn%d int\n}\n", i, i, i, i)
+	}
 	n, _ := reps(c.Tier)
 	o.Count("go_cases", 1)
 	o.Shape = run.ShapeHash("go", len(f.Structs()), len(f.Ifaces()), len(f.Funcs()), len(f.Methods()))
